@@ -20,17 +20,31 @@ type c05cfg struct {
 	reg     string // before | after | late (only after the peer is visible)
 	dist    []string
 	quiet   time.Duration
+	oneWay  bool // B can never reach A (firewall): the connection has to come from A
+	narrow  bool // explore schedules only while the outage lasts (retry chains of both hubs)
+	simple  bool // the hubs use the in-memory SimpleMdns (synchronous answers) instead of the MdnsManager
 }
 
 func (c c05cfg) name() string {
-	return fmt.Sprintf("swap=%v/order=%s/reg=%s/dist=%s", c.swap, c.order, c.reg, strings.Join(c.dist, "+"))
+	n := fmt.Sprintf("swap=%v/order=%s/reg=%s/dist=%s", c.swap, c.order, c.reg, strings.Join(c.dist, "+"))
+	if c.oneWay {
+		n += "/oneway"
+	}
+	if c.narrow {
+		n += "/narrow"
+	}
+	if c.simple {
+		n += "/simplemdns"
+	}
+	return n
 }
 
 var c05Disturbances = []string{"discA", "discB", "cut", "eof", "restartA", "restartB"}
 
 type c05world struct {
-	a, b *hubx.Node
-	gen  int
+	a, b        *hubx.Node
+	gen         int
+	outageUntil time.Duration
 }
 
 func (w *c05world) disturb(d string, c c05cfg) {
@@ -41,6 +55,15 @@ func (w *c05world) disturb(d string, c c05cfg) {
 	case "discB":
 		b.Hub.DisconnectSKI(a.SKI, "user")
 	case "cut":
+		for _, l := range fakews.Links() {
+			if !l.Client.IsClosed() && !l.Server.IsClosed() {
+				l.Client.CutLink()
+			}
+		}
+	case "outage":
+		// the network is gone for ten seconds: established links break, connection attempts fail
+		until := simrt.Elapsed() + 10*time.Second
+		w.outageUntil = until
 		for _, l := range fakews.Links() {
 			if !l.Client.IsClosed() && !l.Server.IsClosed() {
 				l.Client.CutLink()
@@ -69,6 +92,9 @@ func (w *c05world) disturb(d string, c c05cfg) {
 			ci = 1
 		}
 		n := hubx.NewNode(old.Name, ci, old.Port)
+		if c.simple {
+			n = hubx.NewNodeSimpleMdns(old.Name, ci, old.Port)
+		}
 		n.Hub.RegisterRemoteSKI(peer.SKI)
 		n.Start()
 		if d == "restartA" {
@@ -87,13 +113,23 @@ func c05Body(c c05cfg) func() {
 		if c.swap {
 			ia, ib = 1, 0
 		}
-		w := &c05world{a: hubx.NewNode("A", ia, 4711), b: hubx.NewNode("B", ib, 4712)}
+		w := &c05world{}
+		if c.simple {
+			w.a, w.b = hubx.NewNodeSimpleMdns("A", ia, 4711), hubx.NewNodeSimpleMdns("B", ib, 4712)
+		} else {
+			w.a, w.b = hubx.NewNode("A", ia, 4711), hubx.NewNode("B", ib, 4712)
+		}
 		a, b := w.a, w.b
+		fakews.SetDialFault(func(port string, n int) bool {
+			return simrt.Elapsed() < w.outageUntil || (c.oneWay && port == "4711")
+		})
 		if c.reg == "before" {
 			a.Hub.RegisterRemoteSKI(b.SKI)
 			b.Hub.RegisterRemoteSKI(a.SKI)
 		}
-		simrt.Mark()
+		if !c.narrow {
+			simrt.Mark()
+		}
 		switch c.order {
 		case "A-first":
 			a.Start()
@@ -118,8 +154,15 @@ func c05Body(c c05cfg) func() {
 		}
 		simrt.RunFor(5 * time.Second)
 		for _, d := range c.dist {
+			if c.narrow {
+				simrt.Mark()
+			}
 			w.disturb(d, c)
 			simrt.RunFor(3 * time.Second)
+			if c.narrow {
+				simrt.RunFor(9 * time.Second)
+				simrt.Unmark()
+			}
 		}
 		// quiet period: three full back-off cycles (one and a half in the deeper schedule explorations)
 		q := c.quiet
@@ -208,6 +251,16 @@ func c05Scenarios(r *hx.Run) []hx.Scenario {
 		for _, d := range c05Disturbances {
 			cfgs = append(cfgs, c05cfg{swap: swap, order: "together", reg: "before", dist: []string{d}})
 		}
+		// attempts that fail: an outage, and a peer that can only be reached in one direction
+		cfgs = append(cfgs, c05cfg{swap: swap, order: "together", reg: "before", dist: []string{"outage"}})
+		cfgs = append(cfgs, c05cfg{swap: swap, order: "together", reg: "before", dist: []string{"outage"}, oneWay: true})
+		cfgs = append(cfgs, c05cfg{swap: swap, order: "A-first", reg: "after", oneWay: true})
+		// the same with the second mDNS implementation (synchronous answers, no re-announcement events)
+		cfgs = append(cfgs, c05cfg{swap: swap, order: "together", reg: "before", simple: true})
+		cfgs = append(cfgs, c05cfg{swap: swap, order: "A-first", reg: "late", simple: true})
+		cfgs = append(cfgs, c05cfg{swap: swap, order: "together", reg: "before", dist: []string{"outage"}, simple: true})
+		cfgs = append(cfgs, c05cfg{swap: swap, order: "together", reg: "before", dist: []string{"cut"}, simple: true})
+		cfgs = append(cfgs, c05cfg{swap: swap, order: "together", reg: "before", dist: []string{"restartB"}, simple: true})
 		if r.Thorough() {
 			for _, d1 := range c05Disturbances {
 				for _, d2 := range c05Disturbances {
@@ -233,6 +286,13 @@ func c05Scenarios(r *hx.Run) []hx.Scenario {
 		}
 		out = append(out, hx.Scenario{Name: "c05:" + c.name(), Body: c05Body(c), Bounds: simrt.Bounds{Preempt: d, Fault: f, Total: d},
 			Cfg: simrt.Config{MaxSteps: 600000, BranchAfterMark: true, BranchOnly: focus, DelayBounding: true}})
+	}
+	// the retry chains of both hubs during an outage: two departures from the default schedule, restricted to
+	// the goroutines that deliver mDNS reports (a report that comes early meets the attempt that is still running)
+	for _, swap := range []bool{false, true} {
+		c := c05cfg{swap: swap, order: "together", reg: "before", dist: []string{"outage"}, narrow: true, quiet: 35 * time.Second}
+		out = append(out, hx.Scenario{Name: "c05:retry:" + c.name(), Body: c05Body(c), Bounds: simrt.Bounds{Preempt: 2, Fault: 0, Total: 2},
+			Cfg: simrt.Config{MaxSteps: 600000, BranchAfterMark: true, DelayBounding: true, BranchStartOnly: true, BranchOnly: []string{"eportMdnsEntries"}}})
 	}
 	// deeper: the simultaneous-dial race with one preemption (two thorough) on the connection set-up goroutines
 	for _, swap := range []bool{false, true} {
